@@ -82,10 +82,10 @@ func (p *plan) family() []famMod {
 }
 
 // substValue: the thorough tier substitutes all 255 other byte values at every offset of every seed;
-// the quick tier does so for seeds up to 56 bytes and uses a 32-value boundary alphabet (structure
+// the quick tier does so for seeds up to 56 bytes and uses a 33-value boundary alphabet (structure
 // bytes, type bytes, opcode-class representatives, LEB continuation patterns) for larger seeds.
 var quickBytes = func() (m [256]bool) {
-	for _, v := range []byte{0x00, 0x01, 0x02, 0x03, 0x04, 0x05, 0x07, 0x0b, 0x0f, 0x10, 0x11, 0x12, 0x1a, 0x20, 0x24, 0x28,
+	for _, v := range []byte{0x00, 0x01, 0x02, 0x03, 0x04, 0x05, 0x07, 0x0b, 0x0f, 0x10, 0x11, 0x12, 0x1a, 0x20, 0x23, 0x24, 0x28,
 		0x3f, 0x40, 0x41, 0x60, 0x6f, 0x70, 0x7b, 0x7e, 0x7f, 0x80, 0x81, 0xc0, 0xd2, 0xfc, 0xfe, 0xff} {
 		m[v] = true
 	}
